@@ -161,6 +161,14 @@ func genC09(seed uint64, tier string) *plan.Plan {
 			op.F = []plan.Op{{K: "size", A: int64(65519 + r.IntN(22))}}
 			pl.Ops = append(pl.Ops, op)
 		case 3:
+			if r.IntN(2) == 0 {
+				// several records, one of them too short for the template, the others long
+				nrec := int64(2 + r.IntN(4))
+				op := plan.Op{K: "data", A: int64(r.IntN(3)), B: nrec, C: int64(r.Uint64() >> 1), D: int64(20 + r.IntN(280)), S: []string{"", "extra", "v2"}[r.IntN(3)]}
+				op.F = []plan.Op{{K: "shortrec", A: r.Int64N(nrec)}}
+				pl.Ops = append(pl.Ops, op)
+				break
+			}
 			pl.Ops = append(pl.Ops, plan.Op{K: "undef"})
 		case 4:
 			kind := int64(1 + r.IntN(2))
